@@ -611,6 +611,11 @@ int BaseKillPlugin::tryToKillPids(const std::vector<int>& pids) {
   int nrKilled = 0;
 
   for (int pid : pids) {
+    // cgroup.procs lists pids of other pid namespaces as 0. kill(0) and
+    // kill(-1) would signal our own process group / everything.
+    if (pid <= 0) {
+      continue;
+    }
     auto commPath = std::string("/proc/") + std::to_string(pid) + "/comm";
     auto comm = Fs::readFileByLine(commPath);
 
